@@ -908,8 +908,10 @@ func opcodeOperandWidths(l *Loaded) map[types.Object]int {
 // is silently dropped: compileScript ignoring the module store it is given
 // numbers every fragment's modules from 0 while the VM's module cache persists.
 // Judged for unexported functions that are only called directly (no method
-// values, no interface satisfaction to keep a signature for) and for named
-// parameters (a parameter named _ is declared unused).
+// values, no interface satisfaction to keep a signature for), for named
+// parameters (a parameter named _ is declared unused) of the types that carry
+// compile or session state (module store, symbol table, options, module map,
+// compiler, optimizer, constant pool).
 func ruleParamUsed(c *Ctx, rule string, pkgFilter func(string) bool) {
 	l := c.L
 	n := 0
@@ -925,6 +927,21 @@ func ruleParamUsed(c *Ctx, rule string, pkgFilter func(string) bool) {
 		}
 		for i, p := range fn.Params {
 			if p.Name() == "_" || p.Name() == "" {
+				continue
+			}
+			// only parameters that carry compile / session state: the module store, symbol
+			// tables, options, module maps, the constant pool (an unused int or string is
+			// nobody's lost state)
+			state := false
+			for _, nm := range []string{"moduleStore", "SymbolTable", "CompilerOptions", "ModuleMap", "Compiler", "SimpleOptimizer"} {
+				if isNamed(p.Type(), modPath, nm) {
+					state = true
+				}
+			}
+			if sl, ok := p.Type().Underlying().(*types.Slice); ok && isNamed(sl.Elem(), modPath, "Object") {
+				state = true
+			}
+			if !state {
 				continue
 			}
 			n++
@@ -1910,19 +1927,48 @@ func ruleSymbolOperand(c *Ctx, rule string) {
 				return
 			}
 			n++
-			fromSym := derivesFrom(elems[0], func(v ssa.Value) bool {
-				ld, ok := v.(*ssa.UnOp)
-				if !ok || ld.Op != token.MUL {
+			var isIndex func(v ssa.Value, d int) bool
+			isIndex = func(v ssa.Value, d int) bool {
+				if d > 3 {
 					return false
 				}
-				_, ok = isFieldAddrOf(ld.X, modPath, "Symbol", fIdx)
-				return ok
-			}, 4)
-			// a BinOp with something else (index+1) would still "derive": require a plain load, possibly through phis and conversions
-			if bo, isBin := elems[0].(*ssa.BinOp); isBin {
-				_ = bo
-				fromSym = false
+				// the operand handed down through a parameter of an unexported helper: judged at its call sites
+				if p, ok := v.(*ssa.Parameter); ok {
+					pf := p.Parent()
+					if pf == nil || pf.Object() == nil || pf.Object().Exported() || l.AddressTaken(pf) {
+						return false
+					}
+					cs := l.RealCallers(pf)
+					pi := -1
+					for k, q := range pf.Params {
+						if q == p {
+							pi = k
+						}
+					}
+					if len(cs) == 0 || pi < 0 {
+						return false
+					}
+					for _, cc := range cs {
+						if a := cc.Common().Args; pi >= len(a) || !isIndex(a[pi], d+1) {
+							return false
+						}
+					}
+					return true
+				}
+				// a BinOp with something else (index+1) would still "derive": require a plain load, possibly through phis and conversions
+				if _, isBin := v.(*ssa.BinOp); isBin {
+					return false
+				}
+				return derivesFrom(v, func(x ssa.Value) bool {
+					ld, ok := x.(*ssa.UnOp)
+					if !ok || ld.Op != token.MUL {
+						return false
+					}
+					_, ok = isFieldAddrOf(ld.X, modPath, "Symbol", fIdx)
+					return ok
+				}, 4)
 			}
+			fromSym := isIndex(elems[0], 0)
 			c.Check(rule, fmt.Sprintf("%s | emit(%s, %s)", fnName(fn), nm, describe(elems[0])), l.Pos(ins.Pos()), fromSym, "the symbol's Index",
 				"the operand of an instruction that addresses a local or captured variable is not the Index of a symbol (a running counter or another value): it names the right variable only while the orders happen to agree - a closure nested three deep reads and writes its sibling's variable")
 		})
